@@ -12,6 +12,9 @@ Inductive op :=
 | OWrite (b : list (key * option (list N)))      (* put / del / write-batch: one sequence number *)
 | OFlush (id sz : N)                             (* rollover + flush of the memtable into L0 *)
 | OCompact (c : compaction) (outs : list file)   (* trivial move or merging compaction *)
+| OIngest (f : file)                             (* LsmTree::ingest of an external sst (appended to
+                                                   L0) whose entries are newer than everything the
+                                                   store holds; the memtable is empty (tree-level use) *)
 | OGc (c : compaction) (outs : list file)        (* garbage collection: a merge into the last level that
                                                    may drop what the policy permits *)
 | OReopen (id sz : N) (v' : version) (seq' : N). (* exit + open: the log is replayed into one L0 file,
@@ -23,6 +26,13 @@ Inductive op :=
 Fixpoint nodup_keysb (ks : list key) : bool :=
   match ks with [] => true | k :: r => negb (existsb (key_eqb k) r) && nodup_keysb r end.
 
+(* Version::ingest: push at the end of L0; the sequence counter moves up to the file's newest
+   timestamp (a tree-level caller reads at u64::MAX; KeyValueStore::open does the same max) *)
+Definition ingest (s : store) (f : file) : store :=
+  mkS (mem s) (set_nth 0 (hd [] (ver s) ++ [f]) (ver s)) (N.max (seq s) (biggest_ts f)).
+Definition newer_than_store (s : store) (f : file) : bool :=
+  forallb (fun e => forallb (fun e' => ets e' <? ets e) (file_entries (ver s))) (fents f).
+
 (* which steps the theorem covers.  A batch holds each key at most once (the real store panics
    otherwise: finding F7, repaired by deduplicating); a compaction is admissible and its outputs
    are the sorted merge of its inputs (that the resulting levels are well formed is then a
@@ -32,6 +42,7 @@ Definition acceptedb (s : store) (o : op) : bool :=
   | OWrite b => nodup_keysb (map fst b)
   | OFlush _ _ => true
   | OCompact c outs => valid_compactionb (ver s) c && outputs_okb (ver s) c outs
+  | OIngest f => match mem s with [] => true | _ => false end && wf_fileb f && newer_than_store s f
   | OGc c outs => valid_compactionb (ver s) c && (S (cupper c) =? length (ver s))%nat &&
                   gc_outputs_okb (ver s) c outs
   | OReopen id sz v' seq' =>
@@ -46,6 +57,7 @@ Definition step (s : store) (o : op) : store :=
   | OWrite b => write s b
   | OFlush id sz => flush s id sz
   | OCompact c outs => compact s c outs
+  | OIngest f => ingest s f
   | OGc c outs => compact s c outs
   | OReopen id sz v' seq' => mkS [] v' seq'
   end.
@@ -62,6 +74,7 @@ Definition init : store := init_at 0.
 Definition spec_step (m : key -> option (list N)) (o : op) : key -> option (list N) :=
   match o with
   | OWrite b => fun k => match find (fun kv => key_eqb (fst kv) k) b with Some kv => snd kv | None => m k end
+  | OIngest f => fun k => match find (fun e => key_eqb (ek e) k) (fents f) with Some e => ev e | None => m k end
   | _ => m
   end.
 Definition spec (ops : list op) : key -> option (list N) := fold_left spec_step ops (fun _ => None).
@@ -361,6 +374,86 @@ Proof.
   - intros k. rewrite Hk. apply Hk1.
 Qed.
 
+(* ---- ingest of an external sst ---- *)
+Lemma ingest_kview s f k : Inv s -> ver s <> [] -> acceptedb s (OIngest f) = true ->
+  kview (ingest s f) k = kfilter k (fents f) ++ kview s k.
+Proof.
+  intros I Hne Ha. cbn [acceptedb] in Ha. apply andb_prop in Ha. destruct Ha as [Ha Hnew].
+  apply andb_prop in Ha. destruct Ha as [Hmem Hwf].
+  destruct (mem s) as [|m0 mr] eqn:Em; [|discriminate].
+  unfold kview, ingest. cbn [mem ver]. rewrite Em. cbn [kfilter filter app].
+  rewrite flat_set_l0 by exact Hne. rewrite l0_order_snoc; [reflexivity|].
+  intros y Hy.
+  assert (Hfne : fents f <> []) by (unfold wf_fileb in Hwf; destruct (fents f); [discriminate|discriminate]).
+  destruct (biggest_ts_in f Hfne) as (e & He & <-).
+  destruct (wf_version_levels _ (inv_wf s I)) as [Hwfs _].
+  assert (Hyw : wf_fileb y = true).
+  { rewrite Forall_forall in Hwfs. destruct (ver s) as [|l0 r]; [congruence|].
+    specialize (Hwfs l0 (or_introl eq_refl)). rewrite Forall_forall in Hwfs. auto. }
+  assert (Hyne : fents y <> []) by (unfold wf_fileb in Hyw; destruct (fents y); [discriminate|discriminate]).
+  destruct (biggest_ts_in y Hyne) as (e' & He' & <-).
+  unfold newer_than_store in Hnew. rewrite forallb_forall in Hnew. specialize (Hnew e He).
+  rewrite forallb_forall in Hnew. apply N.ltb_lt. apply Hnew.
+  unfold file_entries. apply in_flat_map. exists y. split; [|exact He'].
+  unfold flat. apply in_or_app. left. now apply in_l0_order.
+Qed.
+
+Lemma sorted_kfilter_desc k es : sorted_entriesb es = true -> desc_ts (kfilter k es).
+Proof.
+  induction es as [|x r IH]; [intros _; exact I|]. intros Hs.
+  pose proof (IH (sorted_tail _ _ Hs)) as IH'. unfold kfilter in *. cbn [filter].
+  destruct (key_eqb (ek x) k) eqn:E; [|exact IH']. cbn [desc_ts]. split; [|exact IH'].
+  intros y Hy. apply filter_In in Hy. destruct Hy as [Hy Hky]. apply key_eqb_eq in E, Hky.
+  (* x is strictly before y in entry order and they share the key: y is older *)
+  clear IH IH'. revert x E Hs. induction r as [|z r IHr]; intros x E Hs; [destruct Hy|].
+  cbn in Hs. apply andb_prop in Hs. destruct Hs as [Hxz Hs]. apply andb_prop in Hxz. destruct Hxz as [Hle Hnle].
+  destruct Hy as [<-|Hy].
+  - unfold entry_leb in Hle, Hnle. rewrite E, Hky, lex_cmp_refl in Hle. apply negb_true_iff in Hnle.
+    rewrite Hky, E, lex_cmp_refl in Hnle. apply N.leb_le in Hle. apply N.leb_gt in Hnle. lia.
+  - (* step over z: either z has the same key (then chain) or a larger key (then y, later, cannot have key k) *)
+    destruct (key_eqb (ek z) k) eqn:Ez.
+    + apply key_eqb_eq in Ez. assert (ets y < ets z) by (apply IHr; auto).
+      unfold entry_leb in Hle, Hnle. rewrite E, Ez, lex_cmp_refl in Hle. apply N.leb_le in Hle. lia.
+    + exfalso.
+      pose proof (entry_leb_key _ _ Hle) as K1.
+      pose proof (sorted_head_le z r Hs y Hy) as K2.
+      rewrite E in K1. rewrite Hky in K2.
+      pose proof (key_leb_antisym _ _ K1 K2) as C. rewrite <- C, key_eqb_refl in Ez. discriminate.
+Qed.
+
+Lemma ingest_inv s f : Inv s -> ver s <> [] -> acceptedb s (OIngest f) = true ->
+  Inv (ingest s f) /\ ver (ingest s f) <> [].
+Proof.
+  intros I Hne Ha. pose proof (fun k => ingest_kview s f k I Hne Ha) as Hk.
+  cbn [acceptedb] in Ha. apply andb_prop in Ha. destruct Ha as [Ha Hnew].
+  apply andb_prop in Ha. destruct Ha as [Hmem Hwf].
+  destruct (mem s) as [|m0 mr] eqn:Em; [|discriminate].
+  assert (Hfs : sorted_entriesb (fents f) = true) by (unfold wf_fileb in Hwf; destruct (fents f); [discriminate|exact Hwf]).
+  split.
+  - constructor.
+    + unfold ingest. cbn [ver]. apply wf_flush_version; [exact Hne|exact (inv_wf s I)|exact Hwf].
+    + intros k. rewrite Hk. apply desc_ts_app. split; [now apply sorted_kfilter_desc|]. split; [apply (inv_ord s I)|].
+      intros x y Hx Hy. apply in_kfilter in Hx. destruct Hx as [Hx _]. apply in_kview in Hy. destruct Hy as [Hy _].
+      unfold all_entries in Hy. rewrite Em in Hy. cbn [app] in Hy.
+      unfold newer_than_store in Hnew. rewrite forallb_forall in Hnew. specialize (Hnew x Hx).
+      rewrite forallb_forall in Hnew. apply N.ltb_lt. now apply Hnew.
+    + intros e He. apply in_all_entries_kview in He. rewrite Hk in He. unfold ingest. cbn [seq].
+      apply in_app_or in He. destruct He as [He|He].
+      * apply in_kfilter in He. destruct He as [He _]. pose proof (biggest_ts_ge f e He). lia.
+      * apply in_all_entries_kview in He. pose proof (inv_seq s I e He). lia.
+    + intros e e' He. unfold ingest in He. cbn [mem] in He. rewrite Em in He. destruct He.
+  - unfold ingest. cbn [ver]. destruct (ver s); [congruence|discriminate].
+Qed.
+
+Lemma top_value_ingest s f k : Inv s -> ver s <> [] -> acceptedb s (OIngest f) = true ->
+  top_value (ingest s f) k =
+  match find (fun e => key_eqb (ek e) k) (fents f) with Some e => ev e | None => top_value s k end.
+Proof.
+  intros I Hne Ha. unfold top_value. rewrite (ingest_kview s f k I Hne Ha).
+  unfold kfilter. rewrite <- hd_filter_find.
+  destruct (filter (fun e => key_eqb (ek e) k) (fents f)); reflexivity.
+Qed.
+
 (* ---- garbage collection ---- *)
 Lemma gc_inv s c outs : Inv s -> acceptedb s (OGc c outs) = true ->
   Inv (compact s c outs) /\ forall k, top_value (compact s c outs) k = top_value s k.
@@ -407,7 +500,7 @@ Lemma run_correct ops : forall s m, Inv s -> ver s <> [] -> (forall k, top_value
 Proof.
   induction ops as [|o ops IH]; intros s m I Hne Hm Hacc; cbn [run fold_left all_accepted] in *; [tauto|].
   apply andb_prop in Hacc. destruct Hacc as [Ha Hacc].
-  destruct o as [b|id sz|c outs|c outs|id sz v' seq']; cbn [step spec_step] in *.
+  destruct o as [b|id sz|c outs|f|c outs|id sz v' seq']; cbn [step spec_step] in *.
   - apply IH; [now apply write_inv|exact Hne| |exact Hacc].
     intros k. rewrite (top_value_write s b k Ha). destruct (find _ b); [reflexivity|apply Hm].
   - destruct (flush_inv s id sz I Hne) as [I' Hne'].
@@ -417,6 +510,9 @@ Proof.
     intros k. unfold top_value.
     cbn [acceptedb] in Ha. apply andb_prop in Ha. destruct Ha as [Hv Ho].
     rewrite (compaction_preserves_kview s c outs (inv_wf s I) (inv_ord s I) Hv Ho k). apply Hm.
+  - destruct (ingest_inv s f I Hne Ha) as (I' & Hne').
+    apply IH; [exact I'|exact Hne'| |exact Hacc].
+    intros k. rewrite (top_value_ingest s f k I Hne Ha). destruct (find _ (fents f)); [reflexivity|apply Hm].
   - destruct (gc_inv s c outs I Ha) as (I' & Ht).
     apply IH; [exact I'|now apply apply_compaction_nonempty| |exact Hacc].
     intros k. rewrite Ht. apply Hm.
